@@ -447,6 +447,14 @@ theorem traceMean_full_nonneg (rows : List (Row K)) (dof : K) (hdof : 0 < dof) (
   apply Finset.sum_nonneg; intro j _
   exact div_nonneg (gram_diag_nonneg rows j) (le_of_lt hdof)
 
+/-- `(C · B) j k` as a finite sum -/
+theorem mmul_eq_finset (p : Nat) (a b : Mat K) (j k : Nat) :
+    mmul p a b j k = ∑ l ∈ Finset.range p, a j l * b l k := by
+  have e := rsum_eq_finset p (fun l => a j l * b l k)
+  unfold rsum at e
+  unfold mmul
+  exact e
+
 end field
 
 /-! ### the driver's evaluation plan is the identity on the model -/
